@@ -1,6 +1,7 @@
 package props
 
 import (
+	"fmt"
 	"sort"
 	"strings"
 
@@ -236,6 +237,31 @@ func runC12(c *core.Ctx) {
 		}
 		if i%5003 == 1 {
 			c.Sample(map[string]any{"source": core.Trunc(src, 400), "output": core.Trunc(res.Out, 300)})
+		}
+	}
+	// ---- names with hyphens and question marks; captures after a capture whose body was cut short -----------
+	fixed := []struct{ src, want string }{
+		{"{% capture page-title %}T{{ n }}{% endcapture %}[{{ page-title }}][{{ page }}][{{ title }}]", "[T%d][][]"},
+		{"{% assign page = 'p' %}{% capture page-title %}T{% endcapture %}[{{ page-title }}][{{ page }}]", "[T][p]"},
+		{"{% assign a = 'A' %}{% assign b = 'B' %}{% capture a-b %}ab{% endcapture %}[{{ a }}][{{ b }}][{{ a-b }}]", "[A][B][ab]"},
+		{"{% assign is-ok? = n %}{% capture done? %}yes{% endcapture %}[{{ is-ok? }}][{{ done? }}][{{ done }}]", "[%d][yes][]"},
+		{"{% for i in (1..3) %}{% capture c %}a{{ i }}{% break %}z{% endcapture %}{% endfor %}{% capture d %}tail{% endcapture %}[{{ d }}]", "[tail]"},
+		{"{% for i in (1..3) %}{% capture c %}a{{ i }}b{% continue %}z{% endcapture %}{% endfor %}{% capture d %}{{ n }}tail{% endcapture %}{% capture e %}E{% endcapture %}[{{ d }}][{{ e }}]", "[%dtail][E]"},
+		{"{% capture outer %}o{% for i in (1..2) %}{% capture inner %}i{{ i }}{% break %}{% endcapture %}{% endfor %}p{% endcapture %}{% capture after %}A{% endcapture %}[{{ after }}]", "[A]"},
+		{"{% for i in (1..2) %}{% capture x-y %}{{ i }}{% endcapture %}{% endfor %}[{{ x-y }}][{{ x }}]{% for x-y in (7..8) %}{{ x-y }}{% endfor %}[{{ x-y }}]", "[2][]78[2]"},
+	}
+	for k, f := range fixed {
+		if !c.Mine(k) || !c.Begin("fixed:"+f.src) {
+			continue
+		}
+		for n := 1; n <= 3; n++ {
+			want := f.want
+			if strings.Contains(want, "%d") {
+				want = fmt.Sprintf(f.want, n)
+			}
+			expectOut(c, e, f.src, map[string]any{"n": n}, want, "names-and-aborted-captures", "assign/capture must bind exactly the named variable, and a capture holds exactly the text its own body rendered", nil)
+			c.Obs("fixed_scoping_cases", 1)
+			c.Distinct("fixed", f.src, fmt.Sprint(n))
 		}
 	}
 	// ---- capture equivalence over the general generator ---------------------------------
